@@ -41,12 +41,20 @@ def scenarios(ctx):
         pool += [("v6zone", ll, "eth0"), ("v6zone", ll, "eth1")]
         for _ in range(120):
             fam, ip, zone = rng.choice(pool)
-            steps.append({"op": "extract", "variable": "client.ip", "kind": "ip", "ip": ip, "zone": zone, "port": str(rng.randint(1, 65535))})
+            st = {"op": "extract", "variable": "client.ip", "kind": "ip", "ip": ip, "zone": zone, "port": str(rng.randint(1, 65535))}
+            if rng.random() < 0.4:   # headers in which a client (or a proxy in front) CLAIMS an address: not the peer's address
+                other = rng.choice(pool)[1]
+                st["extra"] = {h: rng.choice([other, other, ip, "unknown", other + ", 10.0.0.1"])
+                               for h in rng.sample(["X-Real-Ip", "X-Forwarded-For", "True-Client-Ip", "X-Client-Ip", "Forwarded",
+                                                    "X-Forwarded-Host", "Cf-Connecting-Ip"], rng.randint(1, 3))}
+            steps.append(st)
             x = rng.random()
             if x < 0.15:
                 steps.append({"op": "extract", "variable": "request.host", "kind": "host",
                               "host": rng.choice(["example.com", "example.com:8443", "[::1]:80", "10.0.0.1", "a.b.c:1", "UPPER.example.com",
-                                                   "", "", " ", "localhost", "xn--bcher-kva.example", "a" * 300 + ".example", "h:0", "-", "*"])})
+                                                   "", "", " ", "localhost", "xn--bcher-kva.example", "a" * 300 + ".example", "h:0", "-", "*"]),
+                              "extra": rng.choice([{}, {}, {"X-Forwarded-Host": "claimed.example.com"}, {"Forwarded": "host=claimed.example.com"},
+                                                   {"X-Original-Host": "claimed.example.com", "X-Forwarded-Server": "edge-1"}])})
             elif x < 0.3:
                 name = rng.choice(["X-Api-Key", "Authorization", "x-lower", "X-Tenant", "Host", "host", "X-Forwarded-For", "Content-Length",
                                    "X-Real-IP", "Cookie", "User-Agent"])
@@ -58,7 +66,8 @@ def scenarios(ctx):
                 steps.append(st)
             elif x < 0.4:
                 steps.append({"op": "extract", "variable": "client.ip", "kind": "ip",
-                              "raw": rng.choice(["", "nohostport", ":1234", "[::1", "::1", "1.2.3.4", "[]:80", "@", "a:b:c:d"])})
+                              "raw": rng.choice(["", "nohostport", ":1234", "[::1", "::1", "1.2.3.4", "[]:80", "@", "a:b:c:d"]),
+                              "extra": rng.choice([{}, {"X-Real-Ip": "10.9.9.9"}, {"X-Forwarded-For": "10.9.9.9"}])})
         out.append({"id": "rnd-%d" % i, "cfg": {}, "steps": steps})
     return out
 
